@@ -650,7 +650,12 @@ def arr_getattr(I, a, name):
     if name == 'reshape':
         return F(name, lambda I, *sh: reshape(I, a, sh[0] if len(sh) == 1 else tuple(sh)))
     if name == 'astype':
-        return F(name, lambda I, dt, **kw: astype(I, a, dt))
+        def _astype(I, dt, copy=True, **kw):
+            # astype(copy=False) with an unchanged dtype hands back the array itself (numpy), otherwise a new array
+            if copy is False and (_dt(dt) == a.dtype or _dt(dt) is None):
+                return a
+            return astype(I, a, dt)
+        return F(name, _astype)
     if name == 'copy':
         return F(name, lambda I: np_array(I, a))
     if name == 'min':
@@ -1125,6 +1130,7 @@ def make(I):
         amin=F('amin', np_minmax(True)), amax=F('amax', np_minmax(False)), sum=F('sum', np_sum), mean=F('mean', np_mean),
         ndarray=ndarray, float64=I.builtins['float'], bool_=I.builtins['bool'], int64=I.builtins['int'],
         integer=I.builtins['int'], floating=I.builtins['float'], number=I.builtins['float'],
+        int_=I.builtins['int'], intc=I.builtins['int'], intp=I.builtins['int'], int32=I.builtins['int'], int16=I.builtins['int'], int8=I.builtins['int'],      # integer widths are not distinguished (A-INT)
         copysign=F('copysign', lambda I, a, b: Bm.ite(I, I.compare('>=', b, 0), Bm.b_abs(I, a), Bm.neg_(I, Bm.b_abs(I, a)) if hasattr(Bm, 'neg_') else I.neg(Bm.b_abs(I, a)))),
         sign=F('sign', lift1('sign', lambda I, e: Bm.ite(I, I.compare('>', e, 0), 1, Bm.ite(I, I.compare('<', e, 0), -1, 0)))),
         deg2rad=F('deg2rad', lift1('deg2rad', lambda I, e: I.binop('/', I.binop('*', e, PI), 180))),
